@@ -20,11 +20,21 @@ pub async fn run_script(cfg: &HCfg, script: &[HOp]) -> Result<CaseResult, String
     let mut observed = vec![];
     for (i, op) in script.iter().enumerate() {
         let flags = (ex.flush_held, ex.writes_held);
-        let o = tokio::time::timeout(std::time::Duration::from_secs(60), ex.step(op)).await;
+        let is_lookup = matches!(op, HOp::Get { .. } | HOp::GetOrFetch { .. });
+        let o = tokio::time::timeout(std::time::Duration::from_secs(if is_lookup { 20 } else { 60 }), ex.step(op)).await;
         let o = match o {
             Ok(o) => o,
             Err(_) => {
+                // a lookup never depends on flusher progress: pending for 20 s with an idle device and open io gates is a hang
+                let io = &ex.ctl.io;
+                let idle = io.inflight.load(std::sync::atomic::Ordering::SeqCst) == 0 && io.held_writes().is_empty() && io.held_reads() == 0;
                 ex.release_all();
+                if is_lookup && idle {
+                    oracle.findings.push(("lookup-hangs".into(), format!("{op:?} did not return within 20 s although no device io was in flight and no io gate was closed"), i));
+                    // the wedged instance may also hang in close(): leave it behind
+                    std::mem::forget(ex);
+                    return Ok(CaseResult { observed, oracle });
+                }
                 return Err(format!("step {i} {op:?} did not return within 60s (inconclusive)"));
             }
         };
@@ -133,7 +143,10 @@ pub fn run(seed: u64, tier: &str, shard: usize, nshards: usize, collide: bool) -
                                .map(|o| json!({"op":o.op,"seen":o.seen,"source":o.source})).collect::<Vec<_>>()}));
                     }
                 }
-                for (sig, detail, i) in cr.oracle.findings.iter().take(1) {
+                // C17 is about aliasing only: a value of another key (or garbage), a hung or failing lookup. Staleness of a
+                // key's own versions is C01's statement and is judged (with its known findings) by the C01 run.
+                let relevant = |sig: &str| !collide || sig.starts_with("foreign") || sig.starts_with("lookup-hangs") || sig.starts_with("lookup-error") || sig.starts_with("reopen-failed");
+                for (sig, detail, i) in cr.oracle.findings.iter().filter(|f| relevant(&f.0)).take(1) {
                     res.violate(
                         format!("{prop}:{sig}:{}", crate::hscript::policy_name(cfg.policy)),
                         format!("{detail} (step {i})"),
